@@ -197,7 +197,9 @@ func c12Gen(t *verifrt.Tape) *c12Scenario {
 		"ba", "XmBSkAwk", "dnMDOHDF", "bc", "ad",
 		// inputs on which a transformation step changes the value in an unusual
 		// way (NUL entity, invalid UTF-8, comment opener without end)
-		"a%26%230b", "a%26%230;b", "x%ffy", "x%ff y", "a/*b", "%26lt;b"}
+		"a%26%230b", "a%26%230;b", "x%ffy", "x%ff y", "a/*b", "%26lt;b",
+		// values that a transformation step reduces to the empty string
+		"+", "%20%09+", "%00", "/**/", "%00%00", "+%00"}
 	if chain != nil {
 		vals = chain.vals
 	}
